@@ -227,22 +227,21 @@ def arm (s : State) (t j : Nat) : State × List Ev :=
   | Fut.broken => ({ s with armed := upd s.armed j true, cancelled := upd s.cancelled j (s.cancelled j + 1) }, [Ev.cancel j t])
   | _ => ({ s with armed := upd s.armed j true }, [])
 
+/-- the job table entry of a new submission and the submitter's program counter -/
+def newJob (s : State) (t : Nat) (kd : Kind) (bd : List Prim) (kl : Bool) (rest : List Act) (acc : Bool) : State :=
+  { s with nextJob := s.nextJob + 1, kind := upd s.kind s.nextJob kd, body := upd s.body s.nextJob bd,
+           killer := upd s.killer s.nextJob kl, owner := upd s.owner s.nextJob t,
+           fut := upd s.fut s.nextJob (if hasFut kd then Fut.pending else Fut.none),
+           todo := upd s.todo t rest, pc := upd s.pc t (Pc.afterEnq s.nextJob acc) }
+
 /-- a submission: everything up to and including the critical section of `enqueue` -/
 def stepSubmit (s : State) (t k : Nat) (kd : Kind) (bd : List Prim) (kl : Bool) (rest : List Act) :
     State × List Ev × Outcome :=
   if s.exit then
-    ({ s with nextJob := s.nextJob + 1, kind := upd s.kind s.nextJob kd, body := upd s.body s.nextJob bd,
-              killer := upd s.killer s.nextJob kl, owner := upd s.owner s.nextJob t,
-              fut := upd s.fut s.nextJob (if hasFut kd then Fut.pending else Fut.none),
-              todo := upd s.todo t rest, pc := upd s.pc t (Pc.afterEnq s.nextJob false),
-              loc := upd s.loc s.nextJob (Loc.rejected t) },
+    ({ newJob s t kd bd kl rest false with loc := upd s.loc s.nextJob (Loc.rejected t) },
      [Ev.submit s.nextJob kd t true, Ev.unlock t], Outcome.op)
   else
-    (notifyOne { s with nextJob := s.nextJob + 1, kind := upd s.kind s.nextJob kd, body := upd s.body s.nextJob bd,
-                        killer := upd s.killer s.nextJob kl, owner := upd s.owner s.nextJob t,
-                        fut := upd s.fut s.nextJob (if hasFut kd then Fut.pending else Fut.none),
-                        todo := upd s.todo t rest, pc := upd s.pc t (Pc.afterEnq s.nextJob true),
-                        loc := upd s.loc s.nextJob Loc.queued, q := s.q ++ [s.nextJob] } k,
+    (notifyOne { newJob s t kd bd kl rest true with loc := upd s.loc s.nextJob Loc.queued, q := s.q ++ [s.nextJob] } k,
      [Ev.submit s.nextJob kd t false, Ev.unlock t], Outcome.op)
 
 /-- the critical section of `stop()` -/
